@@ -272,7 +272,9 @@ FollowUpOK(s, e) ==
 \* sequential runs with eviction out of play: a lookup returns the value of the latest successful set
 ReadsLastSet(s, e) ==
     e.e = "obs" /\ e.api = "get" /\ e.p \in DOMAIN s.cur /\ Has(s.cur[e.p], "key") /\ s.cur[e.p].key \in DOMAIN s.lastset
-        /\ Get(s.lastok, e.p, FALSE) =>
+        /\ Get(s.lastok, e.p, FALSE)
+        \* (a lookup that was itself hit by the fault may report a miss: a stale handle means "gone", by design)
+        /\ ~(e.p \in DOMAIN s.faulted /\ Has(e, "opi") /\ s.faulted[e.p] = e.opi) =>
         Has(e, "handle") /\ Has(e.handle.c, "val") /\
             \* ... or of a later set that reported an error: a failed write may or may not have taken effect
             (e.handle.c.val = s.lastset[s.cur[e.p].key] \/ e.handle.c.val \in Get(s.maybeset, s.cur[e.p].key, {}))
